@@ -165,9 +165,20 @@ def run(R, env):
     for i in d["includes"]:
         inc.setdefault(i["module"], []).append(i)
     by_rust = {m["rust_path"]: fqn for fqn, m in local.items()}
-    R.floor("C20.R4", "TypeUrl impls", len(d["type_urls"]), FLOORS["urls"])
-    for u in d["type_urls"]:
-        rp = u["rust_path"].replace("crate::", "")
+    # the registrations: parsed from type_urls.rs and, for impls produced by a macro_rules! table
+    # (invisible to the syntax-tree view), taken from the compiler's impl table with evaluated constants
+    urls = list(d["type_urls"])
+    have = set(u["rust_path"].replace("crate::", "").replace("r#", "") for u in urls)
+    for i in prog.impls:
+        if i["crate"] == "initia_proto" and (i.get("trait") or "").endswith("TypeUrl"):
+            v = i["assoc_consts"].get("TYPE_URL")
+            rp_ = i["self_ty"].replace("crate::", "").replace("r#", "")
+            if v and "str" in v and rp_ not in have:
+                have.add(rp_)
+                urls.append({"rust_path": i["self_ty"], "url": v["str"], "line": i["span"]["line"]})
+    R.floor("C20.R4", "TypeUrl impls", len(urls), FLOORS["urls"])
+    for u in urls:
+        rp = u["rust_path"].replace("crate::", "").replace("r#", "")
         mod, name = rp.rsplit("::", 1)
         incs = inc.get(mod)
         loc = "packages/initia-proto/src/type_urls.rs:%s" % u["line"]
@@ -188,7 +199,7 @@ def run(R, env):
             v = i["assoc_consts"].get("TYPE_URL")
             if v and "str" in v:
                 comp[i["self_ty"]] = v["str"]
-    R.ob("C20.R4", "compiled-TYPE_URLs-match-source", sorted(comp.values()) == sorted(u["url"] for u in d["type_urls"]), "the TYPE_URL constants seen by the compiler differ from those parsed from type_urls.rs", fn="initia-proto")
+    R.ob("C20.R4", "compiled-TYPE_URLs-match-source", sorted(comp.values()) == sorted(u["url"] for u in urls), "the TYPE_URL constants seen by the compiler differ from those parsed from type_urls.rs", fn="initia-proto")
     mism = [(i["module"], i["file"]) for i in d["includes"] if i["module"].replace("::", ".").replace("r#", "") != os.path.basename(i["file"])[:-3]]
     R.info("C20.R4", "module path / package disagreements in lib.rs (no registered URL affected): %s" % mism)
     # ------------------------------------------------------------ R5
@@ -214,8 +225,22 @@ def run(R, env):
         reach = c.with_removed(edges).settle().T.reach
         dec = [bi for bi, t, args in call_sites(c, lambda nm: nm.endswith("Message::decode"))]
         R.ob("C20.R5", "from_any:decode-behind-test", bool(dec) and all(b not in reach for b in dec), "decode is reachable for a mismatched type URL", fn=fa.key)
-        oks = [e for e in exits(c) if e["kind"] == "ok"]
-        good = bool(oks) and all(e["term"][3][0][2][0] == "payload" and shared.unwrap_payload(e["term"][3][0][2])[1].endswith("Message::decode") and shared.unwrap_payload(e["term"][3][0][2])[2][0] == ("field", shared.unwrap_payload(e["term"][3][0][2])[2][0][1], "value") for e in oks)
+        oks = [e for e in exits(c) if e["kind"] != "err"]
+
+        def is_decode_of_value(e):
+            # Ok(decode(any.value)?) or the tail call decode(any.value)
+            if e["kind"] == "ok":
+                v = e["term"][3][0][2]
+                if v[0] != "payload":
+                    return False
+                call = shared.unwrap_payload(v)
+            elif e["kind"] == "delegate":
+                call = e["term"]
+            else:
+                return False
+            return call[0] == "call" and call[1].endswith("Message::decode") and call[2][0][0] == "field" and call[2][0][2] == "value" and call[2][0][1][0] == "param"
+
+        good = bool(oks) and all(is_decode_of_value(e) for e in oks)
         R.ob("C20.R5", "from_any:decodes-any.value", good, "from_any's Ok value is not decode(any.value)", fn=fa.key)
     if ta is not None:
         c = Ctx(ta)
